@@ -11,4 +11,5 @@ CONSTANTS
   MaxArr = 0
   MaxPairs = 0
   AllowWrap = FALSE
+  Simples <- NoSimples
 INVARIANTS Emit DecOnlyWellFormed ReEncodeIffCanonical DecEncDec CanonicalIsWellFormed ItemLenStable
